@@ -105,7 +105,23 @@ def tables_utest():
     return d
 
 
-ALL = dict(itoa_table=itoa_table, mon_days=mon_days, tables_utest=tables_utest)
+def consts():
+    lg = _src('include/fix8/logger.hpp')
+    m = re.search(r'max_rotation\s*=\s*(\d+)', lg)
+    if not m:
+        raise FactError('Logger::max_rotation not found in include/fix8/logger.hpp')
+    cfg = _src('include/fix8/f8config.h')
+    vals = {}
+    for k in ('FIX8_MAX_FLD_LENGTH', 'FIX8_MAX_MSG_LENGTH', 'FIX8_DEFAULT_PRECISION'):
+        mm = re.search(r'#define\s+%s\s+(\d+)' % k, cfg)
+        if not mm:
+            raise FactError('%s not found in include/fix8/f8config.h' % k)
+        vals[k] = int(mm.group(1))
+    _emit('Consts', '/-- `Logger::max_rotation` -/\ndef maxRotation : Nat := %s\n\ndef maxFldLength : Nat := %d\ndef maxMsgLength : Nat := %d\ndef defaultPrecision : Nat := %d\n'
+          % (m.group(1), vals['FIX8_MAX_FLD_LENGTH'], vals['FIX8_MAX_MSG_LENGTH'], vals['FIX8_DEFAULT_PRECISION']))
+
+
+ALL = dict(consts=consts, itoa_table=itoa_table, mon_days=mon_days, tables_utest=tables_utest)
 
 
 def generate(names):
